@@ -772,6 +772,10 @@ IDENT_POSITIONS = [
     'DROP TABLE `{x}`',
     'CREATE MODEL `{x}` PREDICT `{x}`',
     'USE `{x}`',
+    # names in column LISTS (they have readers and printers of their own)
+    'SELECT * FROM (SELECT 1, 2) AS t (`{x}`, c)',
+    'INSERT INTO t (`{x}`, c) VALUES (1, 2)',
+    'CREATE TRIGGER tr ON db.t COLUMNS `{x}`, c (select 1)',
 ]
 # further positions, used where only termination / acceptance is judged (C02): function names, DESCRIBE / SHOW operands ... print
 # such names unquoted, which is C01's business only for names a user would write (the positions above)
